@@ -948,7 +948,14 @@ def gen_restart(rnd, tier):
         rnd.shuffle(order2)
         body += [new_line('tp_reload', nm, new) for nm in order2]
         body += [range_line(nm, s_, a_, new[nm], rnd) for nm in names]
-        body += ['tp_start name=%s' % nm for nm in (order2 if rnd.random() < 0.7 else reversed(order2))]
+        starts = list(order2 if rnd.random() < 0.7 else reversed(order2))
+        if change == 'referenced-ranges':
+            # a referenced period whose OWN definition changed is started before the period that refers to it: started after it,
+            # the referring period would merge the referenced period's restored segments - those of its old definition - and keep
+            # them (the start-order staleness of finding stale-reference in another guise; outside the rolling theorem, whose
+            # hypothesis is that referenced periods only gain instants; see notes/C08.md, round 4, open items)
+            starts = [which] + [x for x in starts if x != which]
+        body += ['tp_start name=%s' % nm for nm in starts]
         body.append('tp_now name=a')
         after = rnd.choice((2, 6, 20, 60))
         for k in range(after):
